@@ -106,3 +106,57 @@ Proof.
   - vm_compute. reflexivity.
   - vm_compute. reflexivity.
 Qed.
+
+(* ---------- a multi-match selection through the evaluator: del(.[]) empties a sequence ---------- *)
+Lemma dedupe_distinct : forall idxs seen,
+  NoDup idxs -> (forall i, In i idxs -> existsb (ptr_eqb (O, [i])) seen = false) ->
+  dedupe_ptrs (List.map (fun i => (O, [i])) idxs) seen = List.map (fun i => (O, [i])) idxs.
+Proof.
+  induction idxs as [|i idxs IH]; intros seen Hnd Hs; [reflexivity|].
+  cbn [List.map dedupe_ptrs]. rewrite (Hs i (or_introl eq_refl)). f_equal.
+  inversion Hnd as [|? ? Hni Hnd']; subst. apply IH; [exact Hnd'|].
+  intros j Hj. cbn [existsb]. rewrite (Hs j (or_intror Hj)). rewrite orb_false_r.
+  unfold ptr_eqb. cbn [fst snd ptr_eqb_path Nat.eqb andb]. rewrite andb_true_r.
+  apply Nat.eqb_neq. intro; subst; contradiction.
+Qed.
+
+Lemma keep_none {A} ps : forall (l : list A) i,
+  (forall j, (i <= j < i + length l)%nat -> existsb (Nat.eqb j) ps = true) -> keep_not_in ps l i = [].
+Proof.
+  induction l as [|x l IH]; intros i H; cbn [keep_not_in]; [reflexivity|].
+  rewrite (H i) by (cbn [length]; lia). apply IH. intros j Hj. apply H. cbn [length]. lia.
+Qed.
+
+Theorem del_splat_empties items f :
+  (2 <= f)%nat ->
+  exists cx' st',
+    eval (S f) (EDel (EIndex ESelf None)) false [] [(O, [])] (init_store (Seq items)) = Ok (cx', st')
+    /\ deref st' (O, []) = Some (Seq []).
+Proof.
+  intros Hf. cbn [eval].
+  assert (Hd0 : deref (init_store (Seq items)) (O, []) = Some (Seq items)) by reflexivity.
+  destruct (eval_splat f true [] (O, []) (init_store (Seq items)) (Seq items) Hf Hd0 I) as [g Hg].
+  match goal with
+  | |- context [eval f (EIndex ESelf None) true ?a ?b ?c] =>
+      replace (eval f (EIndex ESelf None) true a b c)
+        with (@Ok out (child_ptrs (O, []) (Seq items), init_store (Seq items) ++ g)) by (symmetry; exact Hg)
+  end.
+  cbn [bind fst snd].
+  set (n := length items).
+  assert (Hptrs : child_ptrs (O, []) (Seq items) = List.map (fun i => (O, [i])) (seq 0 n)).
+  { unfold child_ptrs, n. cbn [children fst snd app]. rewrite map_length. reflexivity. }
+  rewrite Hptrs, <- map_rev.
+  assert (Hnd : NoDup (rev (seq 0 n))) by (apply NoDup_rev, seq_NoDup).
+  rewrite (dedupe_distinct (rev (seq 0 n)) [] Hnd) by (intros; reflexivity).
+  rewrite map_length.
+  assert (Hdg : deref (init_store (Seq items) ++ g) (O, []) = Some (Seq items)) by reflexivity.
+  assert (Hb : Forall (fun p => (p < length items)%nat) (rev (seq 0 n))).
+  { apply Forall_forall. intros p Hp. apply in_rev, in_seq in Hp. unfold n in Hp. lia. }
+  destruct (del_loop_any O [] (rev (seq 0 n)) items (init_store (Seq items) ++ g) [(O, [])] (length (rev (seq 0 n)))
+              Hdg Hnd Hb (le_n _)) as (cx' & items' & He & Hv).
+  cbn [app] in He. exists cx'. eexists. split; [exact He|].
+  assert (Hnil : items' = []).
+  { apply map_eq_nil with (f := snd). rewrite Hv. apply keep_none. intros j Hj. rewrite map_length in Hj.
+    apply existsb_exists. exists j. split; [|apply Nat.eqb_refl]. apply -> in_rev. apply in_seq. unfold n. lia. }
+  subst items'. reflexivity.
+Qed.
